@@ -1054,8 +1054,8 @@ fn run_sequence(cfg: &RunCfg, rep: &mut Report, seq: u64, max_steps: u64) -> (bo
     // (160 sectors = 10 TiB), so that claims cross the minimum and the number of miners above it
     // crosses the 4-miner threshold of the total-power rule
     let big = seq % 12 == 5;
-    let n_miners = if big { 5 } else if r.chance(2, 5) { 2 } else { 1 };
-    let cap: u64 = if big { 168 } else { MAX_SECTORS };
+    let n_miners = if big { 5 } else if tiny { 1 } else if r.chance(2, 5) { 2 } else { 1 };
+    let cap: u64 = if big || tiny { 168 } else { MAX_SECTORS };
     // one sequence in eight runs without the F1 compensation so that the known consequence stays visible
     let compensate_f1 = std::env::var("BA_NO_F1_COMP").map(|v| v != "1").unwrap_or(true) && seq % 8 != 7;
     let accts = w.create_accounts(n_miners, 7000 + seq, &TokenAmount::from_whole(1_000_000));
@@ -1111,8 +1111,8 @@ fn run_sequence(cfg: &RunCfg, rep: &mut Report, seq: u64, max_steps: u64) -> (bo
             });
         }
         let mut snaps = ctx.check(&w, "after creation")?;
-        if big {
-            // scripted onboarding: one pre-commit batch and one prove-commit per miner, then PoSt
+        if big || tiny {
+            // scripted onboarding (tiny: ~160 two-sector-partition sectors, i.e. two partitions per deadline): one pre-commit batch and one prove-commit per miner, then PoSt
             // every deadline for a bit more than a proving period
             let mut counts = vec![];
             for mi in 0..ctx.miners.len() {
